@@ -1209,6 +1209,8 @@ says that the hand-written model decides at that site by exactly the operator th
 source change that turns `<` into `<=`, `>` into `>=`, … at a site changes the generated constant and this
 proof obligation stops checking, whether or not a generated case lands on the tie. -/
 
+/-- A SYNTACTIC tie (as `C02.src_max_speed_fold`): a running minimum is the same under `<` and `<=`; the
+statement with `.le` is also true, the proof script is what stops checking when the operator changes. -/
 theorem src_energy_rate_floor {α : Type} [Field α] [LinearOrder α] [IsStrictOrderedRing α] [Lit α] [LawfulLit α] (sweep : List α) :
     Energy.findMinEnergyRate sweep =
       sweep.foldl (fun m r => if energy_rate_floor.num r m = some true then r else m) Energy.f64Max := by
@@ -1229,9 +1231,13 @@ theorem src_phev_battery_left {α : Type} [Field α] [LinearOrder α] [IsStrictO
 changes the generated definition and the proof stops checking (a body the translator no longer recognises is
 not emitted: the theorem no longer elaborates). -/
 
+/-- Both sides divide by `max` in the field (`x / 0 = 0`); the Rust function divides in `f64` (`±inf` / NaN for a
+zero capacity, then clamped).  The equality therefore speaks for the code only for `max ≠ 0` — which the builders
+guarantee (a non-positive battery capacity is a configuration error, fix f2c4b1e). -/
 theorem gen_as_soc_percent_eq {α : Type} [Field α] [LinearOrder α] [IsStrictOrderedRing α] [Lit α] [LawfulLit α] (remaining max : α) :
     Gen.as_soc_percent remaining max = Energy.asSocPercent remaining max := rfl
 
+/-- as `gen_as_soc_percent_eq`: meaningful for `max ≠ 0` -/
 theorem gen_soc_from_battery_and_delta_eq {α : Type} [Field α] [LinearOrder α] [IsStrictOrderedRing α] [Lit α] [LawfulLit α] (start used max : α) :
     Gen.soc_from_battery_and_delta start used max = Energy.socFromBatteryAndDelta start used max := rfl
 
